@@ -60,18 +60,25 @@ class StringParser:
         return self.text[i:i+1]
 
     def nextToken(self, extra=None):
+        """Get next token.
+
+        Returns a tuple (isDelim, token). A delimiter (or the end of the
+        string, represented as None) is flagged by isDelim. Anything else is
+        plain text where backslash escapes have already been removed. Such text
+        is never treated as delimiter, even if it is equal to one.
+        """
         delim=['\"', '\'', '$']
         if extra: delim.extend(extra)
 
         # EOS?
         i = start = self.index
         if i >= self.end:
-            return None
+            return (True, None)
 
         # directly on delimiter?
         if self.text[i] in delim:
             self.index = i+1
-            return self.text[i]
+            return (True, self.text[i])
 
         # scan
         tok = []
@@ -85,7 +92,7 @@ class StringParser:
             i += 1
         tok.append(self.text[start:i])
         self.index = i
-        return "".join(tok)
+        return (False, "".join(tok))
 
     def getRestOfName(self):
         """Get remainder of bare variable name"""
@@ -126,9 +133,11 @@ class StringParser:
                       such substitutions.
         """
         s = []
-        tok = self.nextToken(delim)
-        while tok not in delim:
-            if tok == '"':
+        isDelim, tok = self.nextToken(delim)
+        while not (isDelim and tok in delim):
+            if not isDelim:
+                s.append(tok)
+            elif tok == '"':
                 s.append(self.getString(['"'], False, subst))
             elif tok == '\'':
                 s.append(self.getSingleQuoted())
@@ -142,13 +151,10 @@ class StringParser:
                     s.append(self.getBareVariable(tok, subst))
                 else:
                     raise ParseError("Invalid $-subsitituion")
-            elif tok == None:
-                if None not in delim:
-                    raise ParseError('Unexpected end of string')
-                break
             else:
-                s.append(tok)
-            tok = self.nextToken(delim)
+                # end of string but more was expected
+                raise ParseError('Unexpected end of string')
+            isDelim, tok = self.nextToken(delim)
         else:
             if keep: self.index -= 1
         return "".join(s)
